@@ -85,8 +85,12 @@ PROPS: Dict[str, Dict[str, Any]] = {
                          "dFinal_keys", "dFinal_ok", "dTail_exec",
                          "src_record_sync", "src_record_async", "src_record_init", "recordSync_eq", "recordAsync_eq",
                          "rGate_exec", "rLoopBody_step", "rforFold3_keys", "rFinal_keys", "rFinal_ok", "rTail_exec",
-                         "dictItems_of_base"],
-            "modules": ["KodaModel.Properties.C04", "KodaModel.Properties.C04DictAny", "KodaModel.Properties.C04Record"],
+                         "dictItems_of_base",
+                         "src_typeddict_sync", "src_typeddict_async", "src_typeddict_generic", "typedDictSync_eq",
+                         "typedDictAsync_eq", "tGate_exec", "recGate_td", "tforFold_scan", "tScan_exec", "tLoopBody_step",
+                         "tforFold3_keys", "tFinal_keys", "tFinal_ok", "tTail_exec", "tdGate_dict_of_no_coercer"],
+            "modules": ["KodaModel.Properties.C04", "KodaModel.Properties.C04DictAny", "KodaModel.Properties.C04Record",
+                        "KodaModel.Properties.C04TypedDict"],
             "level_note": "the C04_* theorems state the property about recordStep (all five record-shaped validators share it).  "
                           "Tie to the source: (1) TRANSLATOR, for DictValidatorAny - harness/pysrc.py rewrites "
                           "Generated/DictAnySrc.lean from the AST of DictValidatorAny._validate_to_tuple / "
@@ -97,8 +101,11 @@ PROPS: Dict[str, Dict[str, Any]] = {
                           "whole-object checks) is recordStep for the dictAny kind, for every schema, policy, object check "
                           "and input; __init__ is pinned (src_dictany_init).  RecordValidator is translated into the same language "
                           "(isinstance(data, dict), MissingKeyErr(), `nothing` for an absent optional key, into(*args)) and "
-                          "src_record_sync / src_record_async prove it equal to recordStep for the record kind.  "
-                          "DataclassValidator, NamedTupleValidator, TypedDictValidator: hand-modelled.  (2) the correspondence stream, for all "
+                          "src_record_sync / src_record_async prove it equal to recordStep for the record kind; so is "
+                          "TypedDictValidator (the coercer gate; every later stage holds the coerced value): "
+                          "src_typeddict_sync / src_typeddict_async, under the explicit side condition that what a "
+                          "user-supplied coercer returns is a dict (none is configured by default: "
+                          "tdGate_dict_of_no_coercer).  DataclassValidator, NamedTupleValidator: hand-modelled.  (2) the correspondence stream, for all "
                           "five.  Trusted: Lean kernel + propext/Quot.sound/Classical.choice; the translator and the "
                           "interpreter's reading of the Python subset; CPython for dict / set membership",
             "stream": "core", "opts": {"salt": "c04", "gen": ["streams", "gen_record_case"]},
